@@ -279,6 +279,9 @@ func c14(ctx *Ctx) (*Outcome, error) {
 	for i := 0; i < 9; i++ {
 		cases = append(cases, anyOfAliasCollisionCase(i))
 	}
+	for i := 0; i < 12; i++ {
+		cases = append(cases, caseDefCompositionCase(i))
+	}
 	// pinned witness of the recorded finding name-breaks-tag
 	for _, hn := range hazard {
 		root := &sg.Schema{Types: []string{"object"}, Props: []sg.Prop{{Name: hn, S: &sg.Schema{Types: []string{"string"}}}, {Name: "plain", S: &sg.Schema{Types: []string{"integer"}}}}}
